@@ -450,8 +450,8 @@ func checkC07(c *Check) {
 	c.Share("C03", []string{"R7"}, 5)
 
 	// ---- R8 the chosen route is one that is eligible for this request's headers
-	c.Rule("R8", "shared with C09 (R1)", "a leaf reports a match only behind its header gate asked about this request's headers, on every path that reaches a leaf matcher (a route whose constraints fail is not chosen: the not-found chain or a lower-priority route runs)", 5)
-	c.Share("C09", []string{"R1"}, 5)
+	c.Rule("R8", "shared with C09 (R1)", "a leaf reports a match only behind its header gate asked about this request's headers, on every path that reaches a leaf matcher (a route whose constraints fail is not chosen: the not-found chain or a lower-priority route runs)", 4)
+	c.Share("C09", []string{"R1"}, 4)
 
 	// ---- R5 determinism: no clock / randomness / environment in the routing path
 	c.Rule("R5", "E5 who-may-call ban", "functions of the routing path do not read the clock, random sources, the environment or package-level mutable state", 1)
@@ -1295,6 +1295,9 @@ func dischargeRegexIndex(c *Check, fn *ssa.Function, x *ssa.IndexAddr) (discharg
 		if rangeIdx(x.Index) && ok && len(g) > 0 && inv == "" {
 			return discharge{"regex-table", "groups[i]: i ranges over binds; the constructor appends to binds and groups in lockstep (len equal when non-nil)"}, true
 		}
+		if rangeIdx(x.Index) && inv == "" && regexTableAlwaysKept(p) {
+			return discharge{"regex-table", "groups[i]: i ranges over binds; the constructor appends to binds and groups in lockstep and never drops the table (len equal)"}, true
+		}
 		return discharge{"regex-table", "groups[i] not justified: " + inv}, false
 	case sub(x.X):
 		// submatches[group], group = φ(i+1, groups[i]) under submatches != nil
@@ -1996,4 +1999,54 @@ func lastElemOwner(v ssa.Value, field string) (ssa.Value, bool) {
 		return nil, false
 	}
 	return lastElemAddrOwner(ia, field)
+}
+
+
+// regexTableAlwaysKept: no successful return of the regex constructor hands out a nil group table (then
+// len(groups) == len(binds) holds unconditionally, given the lockstep appends).
+func regexTableAlwaysKept(p *Prog) bool {
+	fn := p.Fn("route", "constructMatchStyleRegex")
+	if fn == nil {
+		return false
+	}
+	ok, n := true, 0
+	seen := map[ssa.Value]bool{}
+	var nonNil func(v ssa.Value, d int) bool
+	nonNil = func(v ssa.Value, d int) bool {
+		v = strip(v)
+		if vNil(v) {
+			return false
+		}
+		if ph, isPhi := v.(*ssa.Phi); isPhi {
+			if seen[ph] {
+				return true
+			}
+			seen[ph] = true
+			for _, e := range ph.Edges {
+				if !nonNil(e, d+1) {
+					return false
+				}
+			}
+		}
+		return true
+	}
+	allInstrs(fn, func(in ssa.Instruction) {
+		r, isR := in.(*ssa.Return)
+		if !isR || len(r.Results) < 3 {
+			return
+		}
+		// an error return: the last result is not the nil error
+		if last := r.Results[len(r.Results)-1]; !vNil(last) {
+			return
+		}
+		for _, res := range r.Results {
+			if s, isS := res.Type().Underlying().(*types.Slice); isS && isIntT(s.Elem()) {
+				n++
+				if !nonNil(res, 0) {
+					ok = false
+				}
+			}
+		}
+	})
+	return ok && n > 0
 }
